@@ -189,3 +189,20 @@ def pick_schemes(r, length, want=3, always=("SemverVersion",)):
         if len(out) >= want:
             break
     return out
+
+
+def alias(v, need_hash=False):
+    """an equal version of the same class with a different spelling, where the scheme has one"""
+    cls = type(v)
+    t = v.string
+    cands = [t + ".0", "0:" + t, t + "-0", t + "+b7", t + ".0.0", t.replace(".", ".0", 1), "v" + t, t + "-r0", t.upper(), t + "_p0"]
+    for c in cands:
+        try:
+            w = cls(c)
+            if w == v and v == w and not (w < v) and not (v < w) and str(w) != str(v):
+                if need_hash and hash(w) != hash(v):
+                    continue
+                return w
+        except Exception:
+            continue
+    return None
